@@ -126,7 +126,12 @@ pub fn worker(spec: &PropSpec, tier: Tier) {
         } else {
             None
         };
-        let rep = explore(&scenarios[si], shard, shards, deadline);
+        let mut sc = scenarios[si].clone();
+        if let Some(b) = std::env::var("NV_BOUND_OVERRIDE").ok().and_then(|b| b.parse().ok()) {
+            // (experimentation aid)
+            sc.bound = b;
+        }
+        let rep = explore(&sc, shard, shards, deadline);
         writeln!(out, "{}", serde_json::to_string(&rep).unwrap()).unwrap();
         out.flush().unwrap();
     }
